@@ -5,18 +5,18 @@ From Bac Require Import Base Deferred.
 From Coq Require Import Permutation.
 Open Scope Z_scope.
 
-Lemma d_size_eq : forall i r sp, d_size (DF i r sp) = S (f_size sp).
+Lemma d_size_eq : forall i r sp a, d_size (DF i r sp a) = S (f_size sp).
 Proof.
   intros. reflexivity.
 Qed.
 
-Lemma d_all_eq : forall i r sp, d_all (DF i r sp) = DF i r sp :: f_all sp.
+Lemma d_all_eq : forall i r sp a, d_all (DF i r sp a) = DF i r sp a :: f_all sp.
 Proof.
   intros. reflexivity.
 Qed.
 
 Lemma d_size_pos : forall d, (1 <= d_size d)%nat.
-Proof. intros [i r sp]. rewrite d_size_eq. lia. Qed.
+Proof. intros [i r sp a]. rewrite d_size_eq. lia. Qed.
 
 Lemma f_size_app : forall a b, f_size (a ++ b) = (f_size a + f_size b)%nat.
 Proof. induction a as [|x a IH]; intros; cbn [f_size app]; [reflexivity|]. rewrite IH. lia. Qed.
@@ -26,7 +26,7 @@ Proof. induction a as [|x a IH]; intros; cbn [f_all app]; [reflexivity|]. rewrit
 
 Lemma f_size_spawns : forall q, (f_size (flat_map d_spawns q) + length q = f_size q)%nat.
 Proof.
-  induction q as [|[i r sp] q IH]; [reflexivity|].
+  induction q as [|[i r sp a] q IH]; [reflexivity|].
   cbn [flat_map d_spawns length]. rewrite f_size_app. cbn [f_size]. rewrite d_size_eq. lia.
 Qed.
 
@@ -54,7 +54,7 @@ Qed.
 
 Lemma f_all_unfold : forall q, Permutation (f_all q) (q ++ f_all (flat_map d_spawns q)).
 Proof.
-  induction q as [|[i r sp] q IH]; [constructor|].
+  induction q as [|[i r sp a] q IH]; [constructor|].
   cbn [f_all flat_map d_spawns]. rewrite d_all_eq, f_all_app.
   cbn [app]. constructor.
   rewrite IH. rewrite !app_assoc. apply Permutation_app_tail. apply Permutation_app_comm.
@@ -124,7 +124,17 @@ Qed.
 Lemma drain_unguarded_loses :
   exists q d, In d q /\ (let '(c, r, s) := drain_all false q in ~ In d c /\ ~ In d r /\ s = DRaised).
 Proof.
-  exists [DF 0 true []; DF 1 false []], (DF 1 false []).
+  exists [DF 0 true [] []; DF 1 false [] []], (DF 1 false [] []).
   split; [right; left; reflexivity|].
   vm_compute. repeat split; intros H; repeat (destruct H as [H|H]; try discriminate H); exact H.
+Qed.
+
+Lemma no_acts_eq : forall i r sp a,
+  no_acts (DF i r sp a) = (match a with [] => true | _ :: _ => false end) && forallb no_acts sp.
+Proof. intros. reflexivity. Qed.
+
+Lemma no_acts_spawns : forall d, no_acts d = true -> d_acts d = [] /\ forallb no_acts (d_spawns d) = true.
+Proof.
+  intros [i r sp a] H. rewrite no_acts_eq in H. apply andb_prop in H. destruct H as [Ha Hs].
+  cbn [d_acts d_spawns]. destruct a; [split; [reflexivity | exact Hs] | discriminate].
 Qed.
